@@ -94,3 +94,35 @@ PROPS["C11"] = {
     "claim": "for every explored state and callback policy: exactly one call per decoded (not received) source symbol with ESI<k and size = symbol length, never for a received symbol; the decoded value is in the returned buffer, or in a library block when NULL was returned, and that buffer is what the source table reports; statuses as in C10",
     "runs": dec_runs("trk", "bNz", "rs,ldpc", ["bfs", "lens"], 1, 1) + dec_runs("trk", "b", "rs,ldpc", ["subsets"]),
 }
+
+PROPS["C19"] = {
+    "level": "model_checking",
+    "claim": "explicit-state model checking of the one-variable generator: all 2^31-2 states of the cycle are visited (256 arcs joined by modular-exponentiation jump-ahead, closure checked); in each state the successor equals 16807*s mod (2^31-1) (64-bit arithmetic) and, for every maxv of the tier's list, the returned value equals the RFC expression, lies in 0..maxv-1 and equals the exact floor whenever s'*maxv < 2^53; seeding accepts exactly 1..2^31-2 on the enumerated windows; the 10000th state after seed 1 is 1043618065",
+    "technique": "exhaustive explicit-state enumeration of the generator's full cycle (2^31-2 states) against the reference transition function",
+    "rule": "states = values of of_seed visited (full cycle); transitions = library calls compared (states x maxv list); every state is distinct by construction",
+    "bounds": {"quick": "all 2^31-2 states x maxv in {1,2,3,5,255,256,1000,65535,65536,2^20,12750000}", "thorough": "all states x 120 maxv values (all <=64, 2^e and 2^e+-1 up to 2^24, 150000, 12749999, 12750000)"},
+    "assumptions": ["'all maxv x all states' (2.7e16) is out of reach: the maxv list is explicit", "reference transition: 64-bit (s*16807) % (2^31-1); exact floor by 128-bit integer arithmetic"],
+    "runs": [{"name": "prng", "src": "h_prng.c", "variant": "plain"}],
+}
+
+PROPS["C20"] = {
+    "level": "model_checking",
+    "claim": "complete enumeration of the (T,B) square and the (L,E,B) cube up to the tier's bound plus a boundary cross product up to 2^32-1, every result compared with integer-only RFC 5052 arithmetic (N, A_small, A_large<=B, I, I*A_large+(N-I)*A_small=T)",
+    "technique": "exhaustive enumeration of a bounded input space against a reference model",
+    "rule": "every (L,E,B) triple is one case; states = transitions = triples evaluated on the real function",
+    "bounds": {"quick": "T,B in 1..1500 (E=1); L in 1..256 x E in 1..32 x B in 1..32; boundary grid L in {2^k-1,2^k,2^k+1} x E in {1,2,3,1024,2^31,2^32-1} x B in {1,2,3,255,50000,2^31-1,2^31,2^32-1}",
+               "thorough": "T,B in 1..4096; L in 1..512 x E,B in 1..64; same boundary grid"},
+    "assumptions": ["beyond the enumerated squares/cubes only the boundary grid is visited"],
+    "runs": [{"name": "block", "src": "h_block.c", "variant": "plain", "no_lib": True}],
+}
+
+PROPS["C13"] = {
+    "level": "model_checking",
+    "claim": "complete enumeration of size 0..80 and 256..272 (thorough: 0..272 and 1024..1040) x destination alignment 0..7 x source alignment 0..7 x operand count 0..20 x all 256 (16) field constants x 2 content patterns (plus 16 rotations carrying every byte value at every position class) for the seven kernels; result compared with the byte-wise definition; reads and writes beyond size trapped by AddressSanitizer (operands end at the end of their heap block) and by canaries",
+    "technique": "exhaustive enumeration of a bounded input space (size x alignment x operand count x constant) on the real kernels against a byte-wise reference",
+    "rule": "one case = (kernel, size, dst alignment, src alignment, operand count, constant, pattern); states = sizes, transitions = kernel calls compared",
+    "bounds": {"quick": "sizes 0..80,256..272; counts 0..20; alignments 8x8; constants all", "thorough": "sizes 0..272,1024..1040 (reduced constant/alignment sets above 300)"},
+    "assumptions": ["reference multiplication gfr_mul (engine/ref.c); table correctness itself is C14", "reads before the start of an operand inside its alignment padding are not observable"],
+    "runs": [{"name": "kernel-asan", "src": "h_kernel.c", "variant": "asan", "exclude": RS28_TU},
+             {"name": "kernel-plain", "src": "h_kernel.c", "variant": "plain", "exclude": RS28_TU}],
+}
